@@ -49,6 +49,10 @@ CmpE == Flag("CMP_E")
 CmpV == Flag("CMP_V")
 \*   CMP_R  (C09) only the construction of the prover's RNG: build_rng, one rekey per commitment blinding, finalize
 CmpR == "CMP_R" \in DOMAIN IOEnv /\ IOEnv.CMP_R = "1"
+\*   CMP_B  (C09) the part of CMP_P that does not depend on how constraints are weighted: the RNG draw count and the six witness-bearing
+\*          / masking commitments and e_blinding equal the reference prover's (witness part + its own draw * B~)
+CmpB == "CMP_B" \in DOMAIN IOEnv /\ IOEnv.CMP_B = "1"
+BlindFields(pf) == << pf.AI1, pf.AO1, pf.S1, pf.AI2, pf.AO2, pf.S2, pf.eb >>
 
 (* does a recorded transcript operation equal the operation the model performs? *)
 OpMatch(r, e) ==
@@ -136,7 +140,7 @@ Appended(label) ==
 TraceProve1 ==
   /\ IsEvent("prove1") /\ ~degen
   /\ ProveStart(Ev.cap, Draws, [AI1 |-> Appended("A_I1"), AO1 |-> Appended("A_O1"), S1 |-> Appended("S1")])
-  /\ CmpP => (RngOk(out'.used) /\ mid'.P.em = out'.ref)
+  /\ (CmpP \/ CmpB) => (RngOk(out'.used) /\ mid'.P.em = out'.ref)
   /\ OpsMatch(Ev.tx, NewOps("P"))
 
 EmittedProof == IF Has(Ev, "proof") THEN Ev.proof ELSE NoProof
@@ -147,6 +151,7 @@ ProveOutcome ==
      /\ (CmpR /\ Ev.res = "ok") => Ev.ext_taken = 32      \* finalize keyed the RNG with 32 bytes of the caller's randomness
      /\ OpsMatch(Ev.tx, NewOps("P"))
      /\ (CmpP /\ res'.P = "ok") => (RngOk(out'.used) /\ wire' = out'.ref)
+     /\ (CmpB /\ res'.P = "ok") => (RngOk(out'.used) /\ BlindFields(wire') = BlindFields(out'.ref))
 
 TraceProve2 ==
   /\ IsEvent("prove2") /\ ~degen
